@@ -282,7 +282,23 @@ func c12Run(c *core.Ctx, idx int) {
 			cleanNoise = append(cleanNoise, n)
 		}
 	}
-	cleanNoise = append(cleanNoise, "", "! comment", "# comment", "   ", "\t")
+	cleanNoise = append(cleanNoise, "", "! comment", "# comment", "   ", "\t", "#\ttab comment", "#comment-without-space", "#  two spaces", "!no space", "# ||looks.like.a.rule^", "#@ not a marker", "! example.org##.banner", "#", "!", "# 0.0.0.0 commented.example", "#||a.com^$important")
+	// Inert lines longer than the 4 KiB read buffer whose part beyond a buffer
+	// boundary would be a rule that matches the requests, if it were ever
+	// treated as a line of its own.
+	if c.Rng.Intn(3) == 0 {
+		pad := func(prefix string, n int, tail string) string {
+			return prefix + strings.Repeat("-", n-len(prefix)) + tail
+		}
+		cleanNoise = append(cleanNoise,
+			pad("! ", 4096, "||a.com^"),
+			pad("! ", 8192, "||sub.example.org^$important"),
+			pad("||x.example^$nosuchmodifier=", 4096, "||a.com^"),
+			pad("# ", 4096, "0.0.0.0 a.com"),
+			pad("! ", 4095, "x||a.com^"),
+			pad("! ", 4097, "||a.com^"),
+		)
+	}
 	base := util.Lines(valid)
 	a0, ok0 := c12Answers(c, c12Witness{Lines: valid, What: "inert-base"}, base, reqs)
 	if !ok0 {
